@@ -25,7 +25,8 @@ def run(cmd, cwd=scr):
     p = subprocess.run(cmd, shell=True, cwd=cwd, env=env, capture_output=True, text=True)
     return p.returncode, p.stdout + p.stderr
 meta = {'seed': sid, 'property': prop, 'ran': []}
-rc0, out0 = run('cargo test --offline --test demo 2>&1 | grep -E "^test result|error" | head -3')
+DF = os.environ.get('DEMO_FLAGS', '')
+rc0, out0 = run(f'cargo test --offline {DF} --test demo 2>&1 | grep -E "^test result|error" | head -3')
 meta['demo_without_change'] = out0.strip()
 rc, out = run(f'git init -q . 2>/dev/null; git apply --unsafe-paths {dst}/patch.diff 2>&1 || patch -p1 < {dst}/patch.diff')
 if 'error' in out.lower() and 'patch' not in out.lower():
@@ -33,7 +34,7 @@ if 'error' in out.lower() and 'patch' not in out.lower():
 run('find src -name "*.rs" | xargs touch')
 rc1, out1 = run('(cargo test --offline --lib; cargo test --offline --doc) 2>&1 | grep -E "^test result|error(\\[|:)" | head -4')
 meta['unit_tests_with_change'] = out1.strip()
-rc2, out2 = run('cargo test --offline --test demo 2>&1 | grep -E "^test result|error(\\[|:)" | head -3')
+rc2, out2 = run(f'cargo test --offline {DF} --test demo 2>&1 | grep -E "^test result|error(\\[|:)" | head -3')
 meta['demo_with_change'] = out2.strip()
 ok = ('ok.' in out0 and 'FAILED' not in out0) and ('FAILED' in out2) and ('FAILED' not in out1 and 'ok.' in out1)
 meta['confirmed'] = ok
